@@ -434,7 +434,16 @@ fn gen_expr(p: &mut Prng, sc: &Scope, cur: &Pkg, want: &Ty, depth: u32) -> Expr 
             if !strs.is_empty() && p.chance(1, 2) {
                 return Expr::Var(p.pick(&strs).0.clone());
             }
-            Expr::StrLit(format!("s{}", p.below(10)))
+            // now and then a literal that needs escaping in the JSON artifact and in the Go text
+            // (goml keeps the text between the quotes as it is: `\"` and `\\` stay two characters;
+            // a backslash may be the very last character)
+            match p.below(12) {
+                0 => Expr::StrLit("q\\\"t".to_string()),
+                1 => Expr::StrLit("b\\\\".to_string()),
+                2 => Expr::StrLit("n\\nl".to_string()),
+                3 => Expr::StrLit("\u{e9}\u{4e2d}".to_string()),
+                _ => Expr::StrLit(format!("s{}", p.below(10))),
+            }
         }
         Ty::Struct(sp, si) => {
             let same: Vec<&(String, Ty)> = sc.vars.iter().filter(|(_, t)| t == want).collect();
@@ -1024,7 +1033,14 @@ impl Project {
         let mut items = Vec::new();
         for s in &pk.structs {
             let fs: Vec<String> = s.fields.iter().map(|f| format!("    {f}: int32,\n")).collect();
-            let d = if s.derive_tostring { "#[derive(ToString)]\n" } else { "" };
+            // structs with an even number of fields derive both traits (two generated impl blocks)
+            let d = if s.derive_tostring && s.fields.len() % 2 == 0 {
+                "#[derive(ToString, ToJson)]\n"
+            } else if s.derive_tostring {
+                "#[derive(ToString)]\n"
+            } else {
+                ""
+            };
             items.push(format!("{}struct {} {{\n{}}}\n", d, s.name, fs.join("")));
         }
         for e in &pk.enums {
@@ -1212,7 +1228,8 @@ impl Project {
 fn noise_str(n: u32) -> String {
     let mut s = String::new();
     for k in 0..n {
-        match k % 3 {
+        match k % 4 {
+            3 => s.push_str(&format!("    let nz{k}: [int32; 0] = [];\n")),
             0 => s.push_str(&format!("    let nz{k} = {k} + 1;\n")),
             1 => s.push_str(&format!("    let nz{k} = ({k}, \"t\");\n")),
             _ => s.push_str(&format!("    let nz{k} = |q: int32| q + {k};\n")),
